@@ -156,14 +156,15 @@ PROPS["C12"] = {
     "technique": 'Lean 4 proof of the closed form and of trip-count soundness against reference loop semantics + natively executed instrumented twin loops',
     "also": ["C01"],   # the shared canon correspondence suite tags its violations C01
     "suites": [{"name": "loops", "quick": 150, "thorough": 3000, "timeout": 3000}, {"name": "canon", "timeout": 3000}],
-    "lean_modules": ["SfwModel.Props.C12", "SfwModel.Props.C12IV"],
+    "lean_modules": ["SfwModel.Props.C12", "SfwModel.Props.C12IV", "SfwModel.Props.C12Wrap"],
     "required_theorems": ["C12_closed_form", "C12_closed_form_mod_width", "C12_negate_sound", "C12_flags_sound_left",
                           "C12_flags_sound_right", "C12_terminates", "C12_trip_count_sound", "C12_runs_unique",
                           "C12_bodyCount_runs", "C12_formula_needs_step_sign", "C12_inclusive_equal_bounds_fixed",
-                          "C12_iv_edges", "C12_iv_basic_guard", "C12_iv_two_updates_rejected", "C12_iv_reverse_subtraction_rejected"],
-    "level_text": "Kernel-checked: a header phi is summarised as an induction variable ONLY IF every edge from inside the loop carries the one integer update `phi ± step` and every outside edge the one start value (guard of classifyIV; two different updates on two back edges are rejected); a variable updated by `i += step` on every trip holds start + k*step at the k-th header evaluation, and that value modulo 2^w on w-bit integers; the model of deriveTripCount's decision chain (operator negation by exit polarity, flags, IV on either side, dead/divergent pre-checks, step-sign requirement, the six closed forms with truncated division and max(0,.)) is sound: whenever the stored trip count evaluates to a number at given argument values the loop `for i := start; i cmp limit; i += step` executes its body exactly that many times (for `!=` under termination). The proof attempt exposed a real defect (inclusive test with equal constant bounds), now fixed and kept as a regression theorem. Tie: the model's loop analysis and rendered TripCount / closed forms are compared byte for byte with the real canonical IR on the corpus including 40+ generated counted loops of every form; independently the REAL exported SCEV trees are evaluated at 12 argument vectors and compared with header values and body counts recorded by a natively executed instrumented twin of each loop.",
-    "level_note": "PARTIAL: the link from Go SSA to the abstract counted loop (that the header phi really is updated by `+ step` on every back edge, that the exit test is the only exit) is go/ssa semantics and is validated by native execution, not proved. Trusted: Lean kernel; SCEV.eval as the reading of a SCEV tree (harness evalSCEV is its Go twin); wrap-around is outside the trip-count theorem (unbounded Int), inside the closed-form theorem.",
-    "partial": "SSA-to-counted-loop abstraction validated by native execution, not proved; trip counts proved on unbounded integers",
+                          "C12_iv_edges", "C12_iv_basic_guard", "C12_iv_two_updates_rejected", "C12_iv_reverse_subtraction_rejected",
+                          "C12_trip_count_sound_on_the_counters_type", "C12_narrow_counter_wrap_fixed"],
+    "level_text": "Kernel-checked: a header phi is summarised as an induction variable ONLY IF every edge from inside the loop carries the one integer update `phi ± step` and every outside edge the one start value (guard of classifyIV; two different updates on two back edges are rejected); a variable updated by `i += step` on every trip holds start + k*step at the k-th header evaluation, and that value modulo 2^w on w-bit integers; the model of deriveTripCount's decision chain (operator negation by exit polarity, flags, IV on either side, dead/divergent pre-checks, step-sign requirement, the six closed forms with truncated division and max(0,.)) is sound: whenever the stored trip count evaluates to a number at given argument values the loop `for i := start; i cmp limit; i += step` executes its body exactly that many times (for `!=` under termination); the same on the counter's own 8/16/32/64-bit type with wrap-around, for every count that survives the tripCountMayWrap gate. The proof attempt exposed a real defect (inclusive test with equal constant bounds), now fixed and kept as a regression theorem; the narrow-counter wrap (uint8 1..<255 step 5: annotated 51, runs 102) is kept as C12_narrow_counter_wrap_fixed. Tie: the model's loop analysis and rendered TripCount / closed forms are compared byte for byte with the real canonical IR on the corpus including 40+ generated counted loops of every form and counter type (int, uint8, int8, uint16, int32; exit test on every iteration or skipped on some); independently the REAL exported SCEV trees are evaluated at 12 argument vectors and compared with header values and body counts recorded by a natively executed instrumented twin of each loop.",
+    "level_note": "PARTIAL: the link from Go SSA to the abstract counted loop (that the header phi really is updated by `+ step` on every back edge, that the exit test is the only exit) is go/ssa semantics and is validated by native execution, not proved. Trusted: Lean kernel; SCEV.eval as the reading of a SCEV tree (harness evalSCEV is its Go twin); wrap-around: the closed-form theorem is modulo 2^w; the trip-count theorem exists on unbounded Int (C12_trip_count_sound) and on the counter's own type (C12_trip_count_sound_on_the_counters_type: every count that survives tripCountMayWrap is the number of body executions with wrap-around arithmetic; for 64-bit counters with a non-constant bound under the premise that the loop ends before the counter reaches the end of its range).",
+    "partial": "SSA-to-counted-loop abstraction validated by native execution, not proved; trip counts of 64-bit counters with non-constant bounds proved under a no-wrap premise",
     "trusted_base": ["go/ssa construction and the Go compiler (native twin)", "SCEV.eval / harness evalSCEV as the meaning of a trip-count expression"],
 }
 PROPS["C01"] = {
@@ -219,14 +220,16 @@ PROPS["C04"] = {
     "suites": [{"name": "collide", "quick": 8, "thorough": 50, "timeout": 3000}, {"name": "zipeq", "quick": 4, "thorough": 40, "timeout": 3000},
                {"name": "ssasem", "quick": 4, "thorough": 30, "timeout": 3000}],
     "also": ["C09"],   # the zipeq suite tags its correspondence violations C09
-    "lean_modules": ["SfwModel.Props.C04", "SfwModel.Props.C09Zipper", "SfwModel.Props.C09Equiv", "SfwModel.Props.C03Sem", "SfwModel.Props.C04Sem", "SfwModel.Props.C04Enforce"],
+    "lean_modules": ["SfwModel.Props.C04", "SfwModel.Props.C09Zipper", "SfwModel.Props.C09Equiv", "SfwModel.Props.C03Sem", "SfwModel.Props.C04Sem", "SfwModel.Props.C04Enforce", "SfwModel.Props.C04Verdict"],
     "required_theorems": ["C04_preserved_iff", "C04_identical_copy_preserved", "C04_oversized_never_zipper_preserved",
                           "C04_unmatched_means_modified", "C04_zipper_preserved_same_size", "C04_constant_marker_was_unsound",
                           "C04_equivalent_same_operator", "C04_equivalent_operands", "C04_equivalent_operands_swapped",
                           "C04_swap_guard", "C04_mapped_operand_respected",
                           "C04_sem_allowSwap_sound", "C04_sem_iso_same_behaviour", "C04_sem_exchanged_returns_rejected",
                           "C04_enforce_blocks_correspond", "C04_enforce_order_kept", "C04_enforce_successors_correspond",
-                          "C04_enforce_phi_edges_correspond", "C04_enforce_entry"],
+                          "C04_enforce_phi_edges_correspond", "C04_enforce_entry",
+                          "C04_zipper_verdict_sound", "C04_zipper_verdict_needs_cfg_consistency",
+                          "C04_zipper_verdict_rejects_exchanged_returns"],
     "level_text": "Kernel-checked decision logic of CompareFunctions: the verdict is `preserved` iff the fingerprints are equal, or neither side is oversized and the zipper left nothing added and nothing removed; identical copies are preserved; an oversized function is never waved through by the zipper; any unmatched instruction means modified; zipper-preserved pairs have equally many instructions (bookkeeping theorems of C09). Behavioural tie: for every generated (old,new) pair whose native outputs differ on some input, and for the specials (exchanged if/else bodies, oversized edit, callee swap, select, nested loop variables), the real cli.CompareFunctions / ComputeDiff status must not be preserved; every function compared with a separately compiled copy of itself must be preserved with nothing added or removed.",
     "level_note": "PARTIAL: that fingerprint equality and an empty zipper difference imply equal behaviour is C03's open half; here it is searched by native execution. The zipper's equivalence test is modelled and tied decision by decision (trace hook); theorems say what a positive decision guarantees (same operator fields; every operand already mapped to its partner or a non-linkable value with the same canonical text; swaps only for commutative numeric ops and ==/!=).",
     "partial": "soundness of the two routes to `preserved` rests on C03 / the zipper's equivalence relation, searched by native execution",
